@@ -44,6 +44,15 @@ NestedDevs(e, i) ==
                             ELSE {Dev("C20.layout", "nested_child_drawing_not_its_rectangle", <<i, j, k.x, k.y, g.x, g.y, g.w, g.h, g.drawn>>)})
                     : j \in 1..Len(n.kids) }
 
+\* Resize(x, y, w, h) against a parent of P[1] x P[2]: a negative or too large extent reaches to the parent's edge
+\* (documented), so the rectangle never leaves the parent and never has a negative side
+ResizeDevs(e) ==
+    IF e.ev # "VpOp" \/ e.op # "Resize" THEN {}
+    ELSE LET x == e.a[2]  y == e.a[3]  w == e.a[4]  h == e.a[5]
+             w1 == IF w < 0 \/ w > e.P[1] - x THEN e.P[1] - x ELSE w
+             h1 == IF h < 0 \/ h > e.P[2] - y THEN e.P[2] - y ELSE h
+         IN IF e.g.w = w1 /\ e.g.h = h1 THEN {} ELSE {Dev("C20.resize", "extent", [a |-> e.a, P |-> e.P, g |-> e.g])}
+
 LayoutDevs(e) ==
     {Dev("C20.layout", p, [op |-> e.op, horiz |-> e.horiz, W |-> e.W, H |-> e.H, kids |-> e.kids]) : p \in LayoutWrong(e.horiz, e.W, e.H, e.kids)}
     \cup UNION { NestedDevs(e, i) : i \in 1..Len(e.kids) }
@@ -56,7 +65,7 @@ LayoutDevs(e) ==
                : i \in 1..Len(e.kids) }
     \cup (IF e.overdraw = 0 THEN {} ELSE {Dev("C20.layout", "cells_drawn_by_two_children", e.overdraw)})
 
-AllDevs(e) == IF e.ev \in {"VpNew", "VpOp"} THEN ProbeDevs(e) \cup ClampDevs(e)
+AllDevs(e) == IF e.ev \in {"VpNew", "VpOp"} THEN ProbeDevs(e) \cup ClampDevs(e) \cup ResizeDevs(e)
               ELSE IF e.ev = "Layout" THEN LayoutDevs(e)
               \* a documented call that panics leaves no state of which the property could hold
               ELSE IF e.ev = "Panic" THEN {Dev("C20.panic", e.area, [op |-> e.op, msg |-> e.msg])} ELSE {}
